@@ -1,0 +1,11 @@
+//go:build !verif
+
+package signaling_rpc_server
+
+// verifSessionEvent is a no-op unless built with the verif tag.
+func verifSessionEvent(s *Server, kind string, strm any, sess *sessionTracker, att *sessionPeerTracker, src, dst string, a, b uint64) {
+}
+
+// verifListenEvent is a no-op unless built with the verif tag.
+func verifListenEvent(s *Server, kind string, strm any, tkr *serverPeerTracker, pid string, nonce uint64, want, notWant string) {
+}
